@@ -24,7 +24,11 @@ def main():
     res = {}
     try:
         for pid in pids:
-            r = sh(["python3", os.path.join(V, "bin/vcheck"), pid], cwd=V)
+            try:
+                r = sh(["python3", os.path.join(V, "bin/vcheck"), pid], cwd=V, timeout=900)
+            except subprocess.TimeoutExpired:
+                res[pid] = (99, ["TIMEOUT after 900 s"])
+                continue
             keys = [l.strip()[5:] for l in r.stdout.splitlines() if l.strip().startswith("key: ")]
             res[pid] = (r.returncode, keys)
             if verbose or r.returncode == 2:
